@@ -33,6 +33,8 @@ type Broken struct {
 	Method   *ir.Method // Input/Output are short names, qualified at placement
 	// PreMethods are VALID methods on the same input message declared before Method.
 	PreMethods []*ir.Method
+	// BasePath, when set, becomes the base path of the service the method is placed in.
+	BasePath string
 }
 
 func child(name string, fields ...string) *ir.Message {
@@ -342,6 +344,11 @@ func BreakHTTPRule(r *R, rule, pkgPrefix, tag string) *Broken {
 			b.Variant = "default path"
 			bad.Fields = []*ir.Field{{Name: "loose", Number: 1, Kind: "string"}, {Name: "page", Number: 2, Kind: "int32", Ann: ir.Ann{Query: &ir.Query{Name: "page"}}}}
 			meth.Config = &ir.HTTPConfig{Method: Pick(r, []string{"GET", "DELETE"})}
+		} else if tagNo(tag)%4 == 2 {
+			// the service BASE PATH has a variable spelled like the unbound field: nothing binds base-path variables, so
+			// the field is as unbound as before
+			b.Variant = "unbound field named like a base-path variable"
+			b.BasePath = "/owners/{loose}"
 		} else if r.Bool() {
 			// the same request message is first used by a bodiless method that binds EVERY field
 			b.Variant = "after a method binding every field"
@@ -398,6 +405,9 @@ func Place(r *R, idx int, rule, placement string) (*ir.Request, *Broken) {
 				main.Services[0].Methods = append(main.Services[0].Methods, pm)
 			}
 			main.Services[0].Methods = append(main.Services[0].Methods, b.Method)
+			if b.BasePath != "" {
+				main.Services[0].BasePath = b.BasePath
+			}
 		}
 		return req, b
 	case "nested":
@@ -415,6 +425,9 @@ func Place(r *R, idx int, rule, placement string) (*ir.Request, *Broken) {
 				main.Services[0].Methods = append(main.Services[0].Methods, pm)
 			}
 			main.Services[0].Methods = append(main.Services[0].Methods, b.Method)
+			if b.BasePath != "" {
+				main.Services[0].BasePath = b.BasePath
+			}
 		}
 		return req, b
 	case "nested_under_annotated":
@@ -440,6 +453,9 @@ func Place(r *R, idx int, rule, placement string) (*ir.Request, *Broken) {
 				main.Services[0].Methods = append(main.Services[0].Methods, pm)
 			}
 			main.Services[0].Methods = append(main.Services[0].Methods, b.Method)
+			if b.BasePath != "" {
+				main.Services[0].BasePath = b.BasePath
+			}
 		}
 		return req, b
 	case "other_generated_file":
@@ -455,7 +471,7 @@ func Place(r *R, idx int, rule, placement string) (*ir.Request, *Broken) {
 				pm.Input, pm.Output = b.Method.Input, b.Method.Output
 				ms = append(ms, pm)
 			}
-			other.Services = []*ir.Service{{Name: "OtherSvc" + tag, Methods: append(ms, b.Method)}}
+			other.Services = []*ir.Service{{Name: "OtherSvc" + tag, BasePath: b.BasePath, Methods: append(ms, b.Method)}}
 		}
 		req.Files = append(req.Files, other)
 		req.Generate = append(req.Generate, other.Name)
@@ -468,7 +484,7 @@ func Place(r *R, idx int, rule, placement string) (*ir.Request, *Broken) {
 		if b.Method != nil {
 			b.Method.Input = ".demo.v1." + b.Method.Input
 			b.Method.Output = b.Method.Input
-			other.Services = []*ir.Service{{Name: "OtherSvc" + tag, Methods: []*ir.Method{b.Method}}}
+			other.Services = []*ir.Service{{Name: "OtherSvc" + tag, BasePath: b.BasePath, Methods: []*ir.Method{b.Method}}}
 		}
 		// imported, not generated
 		main.Deps = append(main.Deps, other.Name)
